@@ -143,42 +143,82 @@ func symbolWidths(p *Program, roots []ssa.Value, frames []*ssa.Call, rootFn *ssa
 // fieldWidth: maximum significant bits of the values stored into a struct
 // field anywhere in fn (0 = unknown / not stored).
 func fieldWidth(p *Program, fn *ssa.Function, st *types.Struct, fv *types.Var) int {
-	e := newEval(p)
-	max, n := 0, 0
-	unknown := false
-	instrsOf(fn, func(_ *ssa.BasicBlock, in ssa.Instruction) {
-		s, ok := in.(*ssa.Store)
-		if !ok {
-			return
-		}
-		st2, fv2, fa := fieldOfAddr(s.Addr)
-		if fa == nil || fv2 != fv || st2 != st {
-			return
-		}
-		n++
-		b := 64
-		if c, ok := s.Val.(*ssa.Call); ok && calleeOf(c) != nil && len(calleeOf(c).Blocks) > 0 {
-			b = 0
+	// every store into the field anywhere in package trie (the record may be a package-level type filled
+	// by a constructor); a stored parameter is bounded by what every call site passes for it
+	var valueBits func(v ssa.Value, depth int) int
+	valueBits = func(v ssa.Value, depth int) int {
+		e := newEval(p)
+		if c, ok := v.(*ssa.Call); ok && calleeOf(c) != nil && len(calleeOf(c).Blocks) > 0 {
+			b := 0
 			ce := newEval(p)
 			for _, ret := range returnsOf(calleeOf(c)) {
 				if len(ret.Results) != 1 {
-					b = 64
-					break
+					return 64
 				}
 				if x := ce.bits(ret.Results[0]); x > b {
 					b = x
 				}
 			}
-		} else {
-			b = e.bits(s.Val)
+			return b
 		}
-		if b >= e.width(s.Val.Type()) {
-			unknown = true
+		if prm, ok := v.(*ssa.Parameter); ok && depth < 2 {
+			g := prm.Parent()
+			idx := -1
+			for i, q := range g.Params {
+				if q == prm {
+					idx = i
+				}
+			}
+			b, n := 0, 0
+			for _, h := range p.FuncsOf(triePath) {
+				for _, c := range callsIn(h) {
+					if calleeOf(c) == g && idx >= 0 && idx < len(c.Common().Args) {
+						n++
+						if x := valueBits(c.Common().Args[idx], depth+1); x > b {
+							b = x
+						}
+					}
+				}
+			}
+			if n == 0 {
+				return 64
+			}
+			return b
 		}
-		if b > max {
-			max = b
+		return e.bits(v)
+	}
+	max, n := 0, 0
+	unknown := false
+	fns := p.FuncsOf(triePath)
+	if fn != nil {
+		// the root function first (cheap common case), then the rest of the package
+		fns = append([]*ssa.Function{fn}, fns...)
+	}
+	seenFn := map[*ssa.Function]bool{}
+	for _, g := range fns {
+		if seenFn[g] {
+			continue
 		}
-	})
+		seenFn[g] = true
+		instrsOf(g, func(_ *ssa.BasicBlock, in ssa.Instruction) {
+			s, ok := in.(*ssa.Store)
+			if !ok {
+				return
+			}
+			st2, fv2, fa := fieldOfAddr(s.Addr)
+			if fa == nil || fv2 != fv || st2 != st {
+				return
+			}
+			n++
+			b := valueBits(s.Val, 0)
+			if b >= newEval(p).width(s.Val.Type()) {
+				unknown = true
+			}
+			if b > max {
+				max = b
+			}
+		})
+	}
 	if n == 0 || unknown {
 		return 0
 	}
